@@ -180,6 +180,10 @@ BREAK = [
     ("C19", "map-ratio-product", "gaftools/cli/stat.py", "map_ratio = float(mapping.query_end - mapping.query_start) / (mapping.query_length)", "map_ratio = float(mapping.query_end - mapping.query_start) * (mapping.query_length)"),
     ("C19", "identity-sum", "gaftools/cli/stat.py", "map_ratio = float(mapping.query_end - mapping.query_start) / (mapping.query_length)", "map_ratio = float(mapping.query_end + mapping.query_start) / (mapping.query_length)"),
     ("C15", "isolated-node-lost", "gaftools/gfa.py", "            cc.add(start_node)\n            return cc", "            return cc"),
+    ("C15", "root-children-not-counted", "gaftools/gfa.py", "                        root_children += 1\n", ""),
+    ("C15", "root-needs-three", "gaftools/gfa.py", "            if root_children > 1:", "            if root_children > 2:"),
+    ("C06", "root-children-not-counted", "gaftools/gfa.py", "                        root_children += 1\n", ""),
+    ("C19", "maximum-never-stored", "gaftools/cli/stat.py", "                reads[mapping.query_name].highest_seq_identity = seq_identity", "                pass"),
 ]
 
 TWIN = [
